@@ -523,6 +523,98 @@ for _pn, _pf in _PRE:
         P.append((f"gen/{_pn}/{_mn}", {"inplace", "generated"}, ((2, 2), (2,)), _mk(_pf, _mf)))
 
 
+# ---- programs that catch a FAILING statement and carry on (C13: "... identical to those of the same program with the failing statements removed") -----
+def _fail_oob_base(xp, x, v):
+    x[7] = 0.0
+
+
+def _fail_oob_view(xp, x, v):
+    v[5] = 0.0
+
+
+def _fail_too_many_indices(xp, x, v):
+    x[0, 0] = 1.0
+
+
+def _fail_bool_mask_length(xp, x, v):
+    x[np.array([True, False])] = 1.0
+
+
+# (a FloatingPointError under np.errstate(divide="raise") is not in the family: NumPy itself has already written the quotients when it raises,
+# so the NumPy twin of the program is no oracle for "the statement removed")
+
+
+def _fail_bad_shape(xp, x, v):
+    x[...] = np.ones((7,))
+
+
+def _fail_nonview_op(xp, x, v):
+    x + np.ones((7,))
+
+
+def _fail_view_op(xp, x, v):
+    x.reshape(5, 5)
+
+
+_FAILS = [("oob-setitem-base", _fail_oob_base), ("oob-setitem-view", _fail_oob_view), ("too-many-indices", _fail_too_many_indices), ("bool-mask-length", _fail_bool_mask_length),
+          ("bad-value-shape", _fail_bad_shape), ("bad-broadcast", _fail_nonview_op), ("bad-reshape", _fail_view_op)]
+
+
+def _mk_caught(fail, where):
+    def f(xp, a, c):
+        x = a * 1.0 if where != "leaf" else a
+        y = x * x
+        v = x[1:3]
+        w = v * c
+        try:
+            fail(xp, x, v)
+        except Exception:
+            pass
+        return dict(L=xp.sum(y) + xp.sum(w) * 2.0 + xp.sum(x * 3.0), x=x)
+
+    return f
+
+
+for _fn, _ff in _FAILS:
+    for _wh in ("intermediate", "leaf"):
+        P.append((f"caught-failure/{_fn}/{_wh}", {"generated", "views", "caught-failure"}, ((4,), (2,)), _mk_caught(_ff, _wh)))
+
+
+# ---- augmented assignments / out= / item assignment whose OPERAND overlaps the target in memory (same view family) -----------------------
+import operator as _op_
+
+_OVL_PATTERNS = [
+    ("x[1:]<-x[:-1]", lambda x: (x[1:], x[:-1])),
+    ("x<-x[::-1]", lambda x: (x, x[::-1])),
+    ("x[::-1]<-x", lambda x: (x[::-1], x)),
+    ("x[:2]<-x[2:]", lambda x: (x[:2], x[2:])),  # disjoint siblings (control)
+    ("x<-x", lambda x: (x, x)),
+    ("x[::2]<-x[1::2]", lambda x: (x[::2], x[1::2])),
+    ("x[1:3]<-x[:2]", lambda x: (x[1:3], x[:2])),
+]
+_OVL_OPS = [
+    ("+=", lambda xp, t, o: _op_.iadd(t, o)), ("-=", lambda xp, t, o: _op_.isub(t, o)), ("*=", lambda xp, t, o: _op_.imul(t, o)), ("/=", lambda xp, t, o: _op_.itruediv(t, o)),
+    ("**=", lambda xp, t, o: _op_.ipow(t, o)), ("add-out", lambda xp, t, o: xp.add(t, o, out=t)), ("multiply-out", lambda xp, t, o: xp.multiply(t, o, out=t)),
+    ("setitem", lambda xp, t, o: t.__setitem__(Ellipsis, o)),
+]
+
+
+def _mk_overlap(pat, op):
+    def f(xp, a, c):
+        x = a * a + 0.5  # positive, so that / and ** stay smooth
+        y = x * x  # a read before the update
+        t, o = pat(x)
+        op(xp, t, o)
+        return dict(L=xp.sum(y) + xp.sum(x * c) + xp.sum(x * x * 0.5), x=x)
+
+    return f
+
+
+for _pn, _pf in _OVL_PATTERNS:
+    for _on, _of in _OVL_OPS:
+        P.append((f"overlap/{_pn}/{_on}", {"inplace", "generated", "views"}, ((4,), (4,)), _mk_overlap(_pf, _of)))
+
+
 # ---- in-place updates of views of owners with either memory order, through every kind of (possibly layout-dependent) view ---------
 # owner order: "C" -> x = a*1.0 ; "F" -> x = a.T*1.0 (the op keeps its operand's layout, so x owns Fortran-ordered memory)
 _LVIEWS = [
